@@ -5,11 +5,11 @@ from .common import *
 LEVEL_TEXT = ("Coq theorems (C12/Props.v): delim_chunk_invariant - for ANY split of a text into chunks (empty ones included) DelimSource's line re-assembly yields exactly splitlines(text), with CPython's full line-boundary set and "
               "a CR LF pair cut anywhere; utf8_chunk_invariant - regrouping UTF-8 bytes into characters with a carry buffer is independent of the chunking; disk_roundtrip - lines free of CR/LF written by DiskSink are read back "
               "identically for any batching; split_join / libsvm_roundtrip - the LibSVM/Manik line grammar parses what the printer wrote; csv_roundtrip - the csv automaton (comma, double quote, doubled quotes) parses RFC-4180 minimal "
-              "quoting back to the cells. Tied to the code by correspondence of the extracted models with DelimSource, _byte_it_, DiskSink/DiskSource, LibsvmReader and csv-backed CsvReader on generated inputs, "
+              "quoting back to the cells; arff_dense_line_roundtrip / arff_sparse_line_roundtrip - dense lines (csv automaton with the reader's dialect) and sparse lines (the reader's own steps) written the Weka way are read back. Tied to the code by correspondence of the extracted models with DelimSource, _byte_it_, DiskSink/DiskSource, LibsvmReader and csv-backed CsvReader on generated inputs, "
               "plus a table oracle (printed table vs parsed rows) for LibSVM, Manik, CSV and ARFF dense/sparse in the Weka/OpenML dialect and in variant spellings (same table or an error).")
 TRUSTED = ["Coq 8.16.1 kernel (coqc)", "extraction + ocaml/driver.ml", "harness/c12.py (table generators, printers for the Weka/OpenML and RFC-4180 dialects, variant spellings, oracle)",
            "modelled not verified: zlib/gzip streaming, the codec's code-point arithmetic (only the grouping of bytes is modelled), Python's csv module (re-implemented as an automaton for one dialect and compared), "
-           "int()/float() parsing of numerals, the re module; ARFF parsing is covered by correspondence-free oracle only (partial, see DESIGN)"]
+           "int()/float() parsing of numerals, the re module; ARFF headers, dialect detection and the mixed-quote fallback parser are covered by the table oracle only (partial, see DESIGN)"]
 ASSUMPTIONS = ["a line handed to DiskSink contains no CR or LF (it is a line)", "HTTP bodies are valid UTF-8 and complete compressed streams", "LibSVM tokens contain no space, colon or comma; labels are non-empty",
                "sparse ARFF nominal levels may come back with the documented extra leading '0' level"]
 RULE = ("texts over an alphabet of ASCII, 2/3/4-byte characters and every line boundary, cut into chunks of 1-8 bytes/chars and random sizes, identity/gzip/deflate; line lists with blanks, tabs, unicode, empty lines, batch None/1-4; "
@@ -372,6 +372,32 @@ def check_arff_lines(ctx, n):
     for (case, exp), mo in zip(metas, ctx.get_model().batch(reqs)):
         if mo != exp: ctx.disagree("C12.arff_parse", case, repr(exp)[:300], repr(mo)[:300])
 
+def check_arff_sparse_lines(ctx, n):
+    """sparse ARFF data lines {k v, ...} in the Weka dialect: the model of ArffLineReader._sparse (theorem arff_sparse_line_roundtrip) and ArffLineReader itself agree with the pairs that were written"""
+    from coba.pipes.readers import ArffLineReader
+    rng = ctx.rng
+    reqs, metas = [], []
+    for _ in range(n):
+        q = rng.choice(["'", '"'])
+        ncol = rng.choice([1, 2, 3, 5, 12])
+        keys = sorted(rng.sample(range(ncol), rng.randrange(0, ncol + 1)))
+        vals = [gen_token(rng, 0.35) if rng.random() < 0.8 else rng.choice(["", "?", " ", "a b", "a ,b", ", ", "x\\", "'", "1"]) for _ in keys]
+        def wq(v):
+            w = weka_quote(v)
+            return (q + w[1:-1] + q) if (w != v and w.startswith("'")) else w
+        sep = rng.choice([",", ",", ", ", " , "])
+        line = rng.choice(["", "", " "]) + "{" + sep.join("%d %s" % (k, wq(v)) for k, v in zip(keys, vals)) + "}" + rng.choice(["", "", " "])
+        case = dict(line=line, quote=q, pairs=[[k, v] for k, v in zip(keys, vals)], n_columns=ncol)
+        ctx.count("arff-sparse-line:%s" % ("quoted" if ("'" in line or '"' in line) else "plain"), repr(case), len(keys) >= 2)
+        exp = dict(zip(keys, vals))
+        try: got = dict(ArffLineReader(False, ncol).filter(line))
+        except Exception as e: got = "raises " + errname(e)
+        if got != exp:
+            ctx.fail(["arff-sparse-line", "reader", "rejected" if isinstance(got, str) else "misread"], "ArffLineReader read the sparse line %r as %r, written was %r" % (line, got, exp), case); continue
+        reqs.append((12, [6, [ord(c) for c in line]])); metas.append((case, [[k, [ord(c) for c in v]] for k, v in zip(keys, vals)]))
+    for (case, exp), mo in zip(metas, ctx.get_model().batch(reqs)):
+        if mo != exp: ctx.disagree("C12.sparse_parse", case, repr(exp)[:300], repr(mo)[:300])
+
 def run(ctx):
     tmpdir = tempfile.mkdtemp(prefix="c12_", dir=os.path.join(VERIF, ".work"))
     try:
@@ -381,6 +407,7 @@ def run(ctx):
         check_csv(ctx, ctx.n(300, 10000))
         check_arff(ctx, ctx.n(400, 20000))
         check_arff_lines(ctx, ctx.n(300, 8000))
+        check_arff_sparse_lines(ctx, ctx.n(300, 8000))
     finally:
         shutil.rmtree(tmpdir, ignore_errors=True)
 
